@@ -1,5 +1,5 @@
 CONSTANTS
-  Alphabet = {"[a]: /u", "[a]:", "/u", "(t)", "[a]: /u (t)", "[a]: /u x", "[a]", "a", "", "[b]: /v", "===", "[A]: /w", "(t", "t)"}
+  Alphabet = {"[a]: /u", "[a]:", "/u", "(t)", "[a]: /u (t)", "[a]: /u x", "[a]", "a", "", "[b]: /v", "===", "[A]: /w", "(t", "t)", "[a]: /u (t", "t) x"}
   MaxLines = 4
 SPECIFICATION Spec
 INVARIANT TypeOK
